@@ -201,7 +201,7 @@ fn record(f: &Fun, via: &str, st: &mut Stats) {
 pub fn run(ctx: &mut Ctx) -> Result<(), Violation> {
     ctx.rule = "cases = functions f as truth tables on ids. Exhaustive: every function of <= 4 variables under id maps {0,1,2,3} and {2,5,6,9}; random: functions of 5..8 variables; CLI: `rsbdd --evaluate=<DNF of f> -m -t` for sampled functions. \
                 Oracle: model is the false leaf iff the table is all-zero; otherwise its table is a single cube (every depended-on variable forced to one polarity), is contained in f's table, tests only variables f depends on, has one path to true, is ordered and reduced; \
-                infer(x, v) == (true,true) iff table(x) => v is valid (checked for the model and for f, for every variable in play plus absent ones). Non-trivial = f non-constant whose diagram has a test with an unsatisfiable true-branch (forces the else-arm); distinct by (table, ids)."
+                infer(x, v) == (true,true) iff table(x) => v is valid (checked for the model and for f, for every variable in play plus absent ones). Non-trivial = f non-constant whose diagram has a test with an unsatisfiable true-branch (forces the else-arm); distinct by (table, ids). Operand provenance: created in the environment through mk_choice (default), or - in a share of the random cases and in dedicated stages - plain values that belong to no environment / nodes of another environment (what BDD::<usize>::from(named) and the repository's own parser tests produce)."
         .to_string();
     ctx.assume("operands interned via mk_choice; the CLI binary is built from the working tree into /verif/target/repo");
 
